@@ -6,19 +6,28 @@
      hash_structs    the field lists (element type, name, element count) of SHA256_CTX, SHA1_CTX,
                      MD5_CTX, HMAC_SHA256_CTX, HMAC_SHA1_CTX, HMAC_MD5_CTX from the three headers;
      hash_final_fns  for every function defined in alg/sha256.c, alg/sha1.c, alg/md5.c whose name
-                     contains "_Final" (the six public functions, SHA256_Final_internal,
-                     HMAC_SHA256_Final_internal): its context parameter and the ordered list of the
-                     statements of its body - plain calls with their argument texts, e.g.
-                     insecure_memzero(ctx, sizeof(SHA1_CTX)) or SHA1_Final(ihash, &ctx->ictx); any
-                     statement that is not a plain call (conditional, loop, return ..) is marked opaque.
+                     contains "_Final" and that takes one of these contexts (the six public
+                     functions, SHA256_Final_internal, HMAC_SHA256_Final_internal): its context
+                     parameter and the ordered list of the statements of its body, each one READ by
+                     the translator or the whole module refuses (then the pinned output is used and
+                     the byte-level observation below alone decides on that run):
+                     a call with, per argument, whether it denotes the context object, one of its
+                     fields, or no part of it (parentheses, pointer casts and single-assignment
+                     temporaries resolved); insecure_memzero(object, size) with the size as a product
+                     of integer literals, sizeof(T) (sizeof( *p ) through p's declared pointee type,
+                     sizeof(local array) as sizeof(element) * n, sizeof(ctx->f)) and sizeof(pointer);
+                     `if (..) insecure_memzero(..)` as a guarded wipe that may not run.
    The models' Final functions (Alg/HashRepo.v) contain NO wipe of their own: they return the context
    as the computation leaves it (state words, bit count, buffer after padding) with exactly those
-   fields zeroed that are in the ZERO SET computed by the interpreter Alg/HashWipe.v from these lists:
-   a field is zero on return only if a regenerated insecure_memzero whose object text denotes the
-   context (or that field) and whose size text is sizeof(<its struct / element type>) (or sizeof of
-   the dereferenced parameter) says so, or an inner XXX_Final call on that sub-context does, and no
-   later statement touches it or is opaque.  A size text the interpreter cannot relate to the object
-   (sizeof(ctx) = a pointer's size, a literal, another type) zeroes nothing.
+   fields zeroed that are in the ZERO SET computed by the interpreter Alg/HashWipe.v from these lists.
+   Sizes are compared BY VALUE through the regenerated layouts (field offsets with natural alignment,
+   LP64 scalar sizes): a field is zero on return only if it lies wholly inside the first
+   min(size, size of the object) bytes of a regenerated insecure_memzero on the context or on a field
+   of it, or an inner XXX_Final call on that sub-context zeroes it, and no later call takes it as an
+   argument and no guarded wipe follows.  So sizeof(SHA1_CTX), (sizeof(SHA1_CTX)), sizeof( *ctx ), 92
+   and a temporary holding any of them all cover a SHA1_CTX; sizeof(ctx) (a pointer: 8 bytes) or 91
+   do not.  Wipes of objects that are no part of the context (stack scratch) have no effect wherever
+   they stand.
    So: SHA256_Final / SHA1_Final / MD5_Final zero the object by their own insecure_memzero;
    HMAC_SHA256_Final by its insecure_memzero(ctx, sizeof(HMAC_SHA256_CTX)) (the inner
    SHA256_Final_internal calls wipe nothing); HMAC_SHA1_Final / HMAC_MD5_Final have no such call and
